@@ -174,16 +174,22 @@ def mountChild (k : Key) (p : Key) : Option Str :=
 
 /-- Python `sorted` on names (code-point order); the order matters only because a recursive `removedir`
 that raises at a mount point has by then deleted the entries *before* it -/
-def sortNames (l : List Str) : List Str := l.mergeSort (fun a b => decide (a ≤ b))
+def insertName (a : Str) : List Str → List Str
+  | [] => [a]
+  | b :: l => if a ≤ b then a :: b :: l else b :: insertName a l
 
-/-- `listdir` (fix D7b): `sorted(set(...))`; never `None` -/
+def sortNames (l : List Str) : List Str := l.foldr insertName []
+
+/-- what the routed store lists for `k` (`None` and "no route" count as empty) -/
+def listBase (P : StoreOps σ) (supp : σ → Key → Bool) (s : MtState σ) (k : Key) : Except StoreErr (List Str) :=
+  match route supp s k with
+  | .error .routeNotFound => .ok []
+  | .error e => .error e
+  | .ok r => (readAt P s r (fun S st => S.listdir st k)).map (fun o => o.getD [])
+
+/-- `listdir` (fix D7b): `sorted(set(...))` of the routed listing and the mount points directly below; never `None` -/
 def listdirL (P : StoreOps σ) (supp : σ → Key → Bool) (s : MtState σ) (k : Key) : Except StoreErr (List Str) :=
-  let base : Except StoreErr (List Str) :=
-    match route supp s k with
-    | .error .routeNotFound => .ok []
-    | .error e => .error e
-    | .ok r => (readAt P s r (fun S st => S.listdir st k)).map (fun o => o.getD [])
-  base.map fun d => sortNames (d ++ s.2.filterMap (fun e => mountChild k e.1)).eraseDups
+  (listBase P supp s k).map fun d => sortNames (d ++ s.2.filterMap (fun e => mountChild k e.1)).eraseDups
 
 def remove (P : StoreOps σ) (supp : σ → Key → Bool) (s : MtState σ) (k : Key) : Except StoreErr (MtState σ) :=
   routedWrite P supp s k (fun S st => S.remove st k)
